@@ -26,7 +26,7 @@ from data_if import DATAInterface
 from udp_link import UDPLink
 from trx_list import TRXList
 
-from gsm_shared import HoppingParams
+from gsm_shared import HoppingParams, GSM_HYPERFRAME
 
 class Transceiver:
 	""" Base transceiver implementation.
@@ -314,10 +314,11 @@ class Transceiver:
 
 		with self._tx_queue_lock:
 			for msg in self._tx_queue:
-				if msg.fn < fn:
-					drop.append(msg)
-				elif msg.fn == fn:
+				if msg.fn == fn:
 					emit.append(msg)
+				# TDMA frame numbers wrap around at the hyperframe boundary
+				elif (fn - msg.fn) % GSM_HYPERFRAME < GSM_HYPERFRAME // 2:
+					drop.append(msg)
 				else:
 					wait.append(msg)
 
